@@ -164,6 +164,13 @@ def build_solver(cfg):
     f = build_filter_arg(cfg["filter"])
     if f != "default":
         kw["ready_operations_filter"] = f
+    if len(kw) % 2 == 1:
+        # a user's own solver class (defined inside a function, as in a notebook or a test): its class name is
+        # "MySolver" wherever it was defined
+        class MySolver(DispatchingRuleSolver):
+            pass
+
+        return MySolver(**kw)
     return DispatchingRuleSolver(**kw)
 
 
